@@ -235,29 +235,279 @@ def _gcs_call(fn, a):
 CONTRACTS[f"{OC}.getCharStringForGlyph#C12"].runtime = Runtime(_gcs_cases, _gcs_build, call=_gcs_call)
 
 
-# =====================================================================================================
-# _get_cff_version / _subroutinize_with_compreffor
 
-from . import c11  # noqa: E402,F401  (PPFont: table presence as the post-processor sees it)
+
+# =====================================================================================================
+# The CFF dispatch of PostProcessor: process -> process_cff -> _subroutinize -> _subroutinize_with_{cffsubr,compreffor}
+#
+# Vocabulary.  The three library entry points (cffsubr.subroutinize, compreffor.compress, convertCFFToCFF2) are modelled
+# as RECORDED calls: each appends one entry (function, font, cff_version=, keep_glyph_names=) to the log `libs.calls` of
+# the one `C12Libs` object ("the libraries"), and has the effect on table presence that the library documents.  The
+# decision table of the property is then a postcondition over that log: which library is invoked, on which font, with
+# which arguments, exactly once, and nothing else; NotImplementedError / ValueError exactly for the unsupported cells.
+
+import collections  # noqa: E402
+import enum  # noqa: E402
+import importlib  # noqa: E402
+
+from pyvc.api import Loop, Named, lemma  # noqa: E402
+from pyvc.core import coerce, fresh  # noqa: E402
+from pyvc.exprs import ExprMixin  # noqa: E402
+
+from . import c11  # noqa: E402,F401  (PPFont / PostProcessor: the post-processor's objects, shared with C11)
+
+_PPM = importlib.import_module("ufo2ft.postProcessor")
+_PPC = _PPM.PostProcessor
+_VERSIONS = _PPM.CFFVersion  # IntEnum: CFF = 1, CFF2 = 2
+_BACKENDS = _PPC.SubroutinizerBackend  # Enum: "compreffor", "cffsubr"
+
+
+# ---- enum members (engine gap R7 of notes/C11.requests.md; DECLINED for now by the engine worker) ---------------------
+class EnumInt(type(INT)):
+    """An int that is a member of an IntEnum class: the same sort and the same type key as INT (so every engine
+    operation treats it as an int, which is what an IntEnum member is), plus the enum class, so that `.name` /
+    `.value` can be given their Python meaning by the shim below."""
+
+    def __init__(self, pyenum):
+        super().__init__("Int", z3.IntSort)
+        self.pyenum = pyenum
+
+
+CFFV = EnumInt(_VERSIONS)
+
+if not getattr(ExprMixin.getattr, "_c12_shim", False):
+    _engine_getattr = ExprMixin.getattr
+
+    def _getattr_enum(self, recv, name, st, node=None):
+        """`.name` / `.value` of enum members (Python semantics of enum.Enum): a concrete member answers with its real
+        attribute; a symbolic IntEnum member (type EnumInt) answers with the case distinction over the members of the
+        REAL enum class, under the obligation that its value is a member's value.  Everything else: the engine."""
+        if name in ("name", "value"):
+            recv = self.deopt(recv, st, node)
+            if recv.is_py and isinstance(recv.py, enum.Enum):
+                return Val.const(getattr(recv.py, name))
+            pe = getattr(recv.ty, "pyenum", None)
+            if pe is not None and not recv.is_py:
+                members = list(pe)
+                v = lift(recv)
+                self.safety(st, z3.Or(*[v == int(m) for m in members]), "AttributeError", node)
+                if name == "value":
+                    return Val(INT, v)
+                t = z3.StringVal(members[-1].name)
+                for m in reversed(members[:-1]):
+                    t = z3.If(v == int(m), z3.StringVal(m.name), t)
+                return Val(STR, t)
+        return _engine_getattr(self, recv, name, st, node)
+
+    _getattr_enum._c12_shim = True
+    ExprMixin.getattr = _getattr_enum
+
+
+@trusted("ufo2ft.postProcessor.CFFVersion", "enum.IntEnum call CFFVersion(v): the member whose value is v (an int equal to v); ValueError when no member has that value "
+         "(members read from the real class)")
+def _cffversion_call(ex, st, args, kwargs, node):
+    if len(args) != 1 or kwargs:
+        raise Unsupported("CFFVersion(...) with another argument shape", node)
+    v = ex.deopt(args[0], st, node)
+    if is_const(v):
+        try:
+            return Val.const(_VERSIONS(v.py))
+        except ValueError:
+            ex.safety(st, z3.BoolVal(False), "ValueError", node)
+            return Val(CFFV, fresh(INT, "no_member"))
+    if v.ty != INT:
+        raise Unsupported(f"CFFVersion({v.ty})", node)
+    ex.safety(st, z3.Or(*[lift(v) == int(m) for m in _VERSIONS]), "ValueError", node)
+    return Val(CFFV, lift(v))
+
+
+@trusted("ufo2ft.postProcessor.PostProcessor.SubroutinizerBackend", "enum.Enum call SubroutinizerBackend(s): the member whose value is s; ValueError when no member has that value "
+         "(members read from the real class)")
+def _backend_call(ex, st, args, kwargs, node):
+    if len(args) != 1 or kwargs:
+        raise Unsupported("SubroutinizerBackend(...) with another argument shape", node)
+    v = ex.deopt(args[0], st, node)
+    if is_const(v):
+        try:
+            return Val.obj(_BACKENDS(v.py))
+        except ValueError:
+            ex.safety(st, z3.BoolVal(False), "ValueError", node)
+            return Val.obj(list(_BACKENDS)[0])  # unreachable: the path condition is now false
+    if v.ty != STR:
+        raise Unsupported(f"SubroutinizerBackend({v.ty})", node)
+    # a symbolic string: only decidable here when it provably names no member (then the call always raises)
+    is_member = z3.Or(*[lift(v) == z3.StringVal(m.value) for m in _BACKENDS])
+    ex.safety(st, is_member, "ValueError", node)
+    for m in _BACKENDS:
+        if ex.entails(st, lift(v) == z3.StringVal(m.value)):
+            return Val.obj(m)
+    if ex.entails(st, z3.Not(is_member)):
+        return Val.obj(list(_BACKENDS)[0])  # the call always raises here: the normal continuation is infeasible
+    raise Unsupported("SubroutinizerBackend(<symbolic string>): the member is not determined on this path (use a Const variant)", node)
+
+
+def _default_backend_getitem(ex, st, self, idx, node):
+    """PostProcessor.DEFAULT_SUBROUTINIZER_FOR_CFF_VERSION[version] on the REAL class-level dict: KeyError obligation
+    for the key; the entry for the key when the path determines it, or the common value when all entries agree."""
+    table = _PPC.DEFAULT_SUBROUTINIZER_FOR_CFF_VERSION
+    idx = ex.deopt(idx, st, node)
+    if is_const(idx):
+        if idx.py not in table:
+            ex.safety(st, z3.BoolVal(False), "KeyError", node)
+            return Val.obj(list(_BACKENDS)[0])
+        return Val.obj(table[idx.py])
+    k = lift(idx, INT)
+    ex.safety(st, z3.Or(*[k == int(key) for key in table]), "KeyError", node)
+    vals = list(table.values())
+    if all(v is vals[0] for v in vals):
+        return Val.obj(vals[0])
+    for key, v in table.items():
+        if ex.entails(st, k == int(key)):
+            return Val.obj(v)
+    raise Unsupported("DEFAULT_SUBROUTINIZER_FOR_CFF_VERSION[<symbolic version>]: entries differ and the path does not fix the key", node)
+
+
+cls("C12DefaultBackends", getitem=_default_backend_getitem,
+    notes="the class-level dict PostProcessor.DEFAULT_SUBROUTINIZER_FOR_CFF_VERSION (read from the real class on every run)")
+_DEFAULTS_REF = z3.Const("c12_default_backends", T.RefSort)
+CLASSES["PostProcessor"].derived["DEFAULT_SUBROUTINIZER_FOR_CFF_VERSION"] = lambda ex, st, self: Val(Ref("C12DefaultBackends"), _DEFAULTS_REF)
+CLASSES["PostProcessor"].derived["SubroutinizerBackend"] = lambda ex, st, self: Val.obj(FuncRef(_BACKENDS, "ufo2ft.postProcessor.PostProcessor.SubroutinizerBackend"))
+
+# ---- the libraries: a log of calls ---------------------------------------------------------------------------------------
+LIBCALL = Named("LibCall", fn=STR, font=Ref("PPFont"), cff_version=Opt(INT), keep_glyph_names=Opt(BOOL))
+LibCall = collections.namedtuple("LibCall", "fn font cff_version keep_glyph_names")  # the same record natively (font = id of the font object)
+
+cls("C12Libs", fields={"calls": List(LIBCALL)},
+    notes="the three CFF libraries seen as one recorder: `calls` = every invocation so far, in order (function, font, cff_version=, keep_glyph_names=)")
+_WORLD = z3.Const("c12_the_libraries", T.RefSort)
+
+
+class _NativeLibs:
+    def __init__(self):
+        self.calls = []
+
+
+NATIVE_LIBS = _NativeLibs()
+
+
+def _libs(ex, st, self):
+    return Val(Ref("C12Libs"), _WORLD)
+
+
+for _cn in ("PPFont", "PostProcessor"):
+    CLASSES[_cn].derived["libs"] = _libs
+    CLASSES[_cn].views["libs"] = lambda o: NATIVE_LIBS
+CLASSES["PPFont"].derived["font_id"] = lambda ex, st, self: self
+CLASSES["PPFont"].views["font_id"] = lambda o: id(o)
+
+
+def _log_call(ex, st, fn, font, ver, keep, node):
+    w = Val(Ref("C12Libs"), _WORLD)
+    cur = ex.read_field(st, w, "calls")
+    entry = LIBCALL.sort().mk(z3.StringVal(fn), lift(font), lift(coerce(ver, Opt(INT))), lift(coerce(keep, Opt(BOOL))))
+    ex.write_field(st, w, "calls", Val(List(LIBCALL), z3.Concat(cur.term, z3.Unit(entry))), node)
+
+
+def _touch(ex, st, otf, fields, node):
+    """the library works on the font's tables in place: what it may change is unknown afterwards"""
+    for cn, f in fields:
+        o = otf if cn == "PPFont" else ex.read_field(st, otf, "post")
+        ex.write_field(st, o, f, Val(CLASSES[cn].fields[f], fresh(CLASSES[cn].fields[f], "lib_" + f)), node)
+
+
+_POST_TOUCHED = [("PPPost", f.split(".")[1]) for f in c11._POST_FIELDS]
+_FONT_TOUCHED = [("PPFont", "pristine"), ("PPFont", "CFF2_loaded")]
+_NONE = Val.const(None)
+
+
+@trusted("compreffor.compress", "compreffor.compress(otf) subroutinises the 'CFF ' table of otf in place (KeyError without one); the table set is unchanged "
+         "[recorded in libs.calls]; ASSUMED to preserve the drawing operations and widths of every charstring")
+def _compress(ex, st, args, kwargs, node):
+    (otf,) = args
+    if kwargs:
+        raise Unsupported("compreffor.compress with options", node)
+    ex.safety(st, ex.read_field(st, otf, "has_CFF").term, "KeyError", node)
+    _log_call(ex, st, "compreffor.compress", otf, _NONE, _NONE, node)
+    _touch(ex, st, otf, _FONT_TOUCHED, node)
+    return Val.const(None)
+
+
+@trusted("cffsubr.subroutinize", "cffsubr.subroutinize(otf, cff_version=v, keep_glyph_names=k) replaces the font's CFF table (the 'CFF ' one if present, else 'CFF2'; "
+         "cffsubr.Error without either) by a subroutinised table of format v (1: 'CFF ', 2: 'CFF2', None: as the input), in place, returns otf; may rewrite the post table; "
+         "the glyph order of the TTFont object is unchanged [recorded in libs.calls]; ASSUMED to preserve the drawing operations and widths of every charstring")
+def _cffsubr_subroutinize(ex, st, args, kwargs, node):
+    if len(args) != 1 or not set(kwargs) <= {"cff_version", "keep_glyph_names"}:
+        raise Unsupported("cffsubr.subroutinize called with another argument shape than (otf, cff_version=, keep_glyph_names=)", node)
+    (otf,) = args
+    ver = coerce(ex.deopt(kwargs.get("cff_version", _NONE), st, node) if not isinstance(kwargs.get("cff_version", _NONE).ty, T.Opt) else kwargs["cff_version"], Opt(INT))
+    keep = kwargs.get("keep_glyph_names", Val.const(True))
+    h1, h2 = ex.read_field(st, otf, "has_CFF").term, ex.read_field(st, otf, "has_CFF2").term
+    ex.safety(st, z3.Or(h1, h2), "Error", node)
+    s = Opt(INT).sort()
+    out = z3.If(s.is_some(ver.term), s.val(ver.term), z3.If(h1, z3.IntVal(1), z3.IntVal(2)))
+    ex.safety(st, z3.Or(out == 1, out == 2), "ValueError", node)
+    _log_call(ex, st, "cffsubr.subroutinize", otf, ver, keep, node)
+    # del otf[input tag]; otf[output tag] = new table   (input tag: 'CFF ' when present)
+    ex.write_field(st, otf, "has_CFF", Val(BOOL, out == 1), node)
+    ex.write_field(st, otf, "has_CFF2", Val(BOOL, z3.Or(out == 2, z3.And(h1, h2))), node)
+    _touch(ex, st, otf, _FONT_TOUCHED + _POST_TOUCHED, node)
+    return otf
+
+
+@trusted("fontTools.cffLib.CFFToCFF2.convertCFFToCFF2", "convertCFFToCFF2(otf) replaces the 'CFF ' table (KeyError without one) by an equivalent 'CFF2' table, in place "
+         "[recorded in libs.calls]; ASSUMED to preserve the drawing operations of every charstring (advance widths live in hmtx)")
+def _convert(ex, st, args, kwargs, node):
+    (otf,) = args
+    if kwargs:
+        raise Unsupported("convertCFFToCFF2 with options", node)
+    ex.safety(st, ex.read_field(st, otf, "has_CFF").term, "KeyError", node)
+    _log_call(ex, st, "convertCFFToCFF2", otf, _NONE, _NONE, node)
+    ex.write_field(st, otf, "has_CFF", Val.const(False), node)
+    ex.write_field(st, otf, "has_CFF2", Val.const(True), node)
+    _touch(ex, st, otf, _FONT_TOUCHED, node)
+    return Val.const(None)
+
+
+_LIB_MOD = ["C12Libs.calls", "PPFont.pristine", "PPFont.CFF2_loaded"]
+_TABLES_MOD = ["PPFont.has_CFF", "PPFont.has_CFF2"]
+
+
+def one_call(font, fn, ver, keep, log="{o}.libs.calls"):
+    """clause text: exactly one library call was added to the log, and it is `fn(font, cff_version=ver, keep_glyph_names=keep)`"""
+    L = log.format(o=font)
+    return (f"len({L}) == len(old({L})) + 1 and {L}[:-1] == old({L}) and {L}[-1].fn == {fn!r} and {L}[-1].font == {font}.font_id "
+            f"and {L}[-1].cff_version == {ver} and {L}[-1].keep_glyph_names == {keep}")
+
+
+def no_call(font, log="{o}.libs.calls"):
+    L = log.format(o=font)
+    return f"{L} == old({L})"
+
+
+_HAS1, _HAS2 = "'CFF ' in {o}", "'CFF2' in {o}"
+_MEMBER = "({v} == 1 or {v} == 2)"
 
 contract(
     f"{PP}._get_cff_version",
     props=["C12"],
     params={"otf": Ref("PPFont")},
-    returns=Opt(INT),
+    returns=Opt(CFFV),
     ensures={
         "cff1": "implies('CFF ' in otf, result == 1)",
         "cff2": "implies('CFF ' not in otf and 'CFF2' in otf, result == 2)",
         "none": "iff(result is None, 'CFF ' not in otf and 'CFF2' not in otf)",
+        "member": "result is None or result == 1 or result == 2",
     },
     canaries={"always-1": "result == 1"},
 )
 
 
 class _FakeOTF:
+    """table presence only (what the dispatch may look at)"""
+
     def __init__(self, tags):
         self.tags = set(tags)
-        self.calls = []
+        del NATIVE_LIBS.calls[:-3]  # (a new case is being built: keep the native log short; clauses speak about the calls ADDED)
 
     def __contains__(self, t):
         return t in self.tags
@@ -268,66 +518,290 @@ CONTRACTS[f"{PP}._get_cff_version"].runtime = Runtime(
     lambda d: {"otf": _FakeOTF(d["tags"])},
 )
 
-CLASSES["PPFont"].fields["compress_calls"] = INT  # how often compreffor.compress was applied to this font (ghost counter)
+
+# ---- run-time side: the three library entry points replaced by recorders (restored after each call) ----------------------
+class patched_libs:
+    """context manager: cffsubr.subroutinize / compreffor.compress / convertCFFToCFF2 append to NATIVE_LIBS.calls; on a
+    `_FakeOTF` they apply the documented effect on the table set, on a real TTFont they call the real library"""
+
+    def __enter__(self):
+        import cffsubr
+        import compreffor
+
+        self.saved = (cffsubr.subroutinize, compreffor.compress, _PPM.convertCFFToCFF2)
+        real_subr, real_compress, real_convert = self.saved
+
+        def subroutinize(otf, cff_version=None, keep_glyph_names=True, **kw):
+            assert not kw, kw
+            NATIVE_LIBS.calls.append(LibCall("cffsubr.subroutinize", id(otf), None if cff_version is None else int(cff_version), keep_glyph_names))
+            if isinstance(otf, _FakeOTF):
+                src = "CFF " if "CFF " in otf.tags else "CFF2"
+                dst = src if cff_version is None else {1: "CFF ", 2: "CFF2"}[int(cff_version)]
+                otf.tags.discard(src)
+                otf.tags.add(dst)
+                return otf
+            return real_subr(otf, cff_version=cff_version, keep_glyph_names=keep_glyph_names)
+
+        def compress(otf, *a, **kw):
+            assert not a and not kw
+            NATIVE_LIBS.calls.append(LibCall("compreffor.compress", id(otf), None, None))
+            if isinstance(otf, _FakeOTF):
+                if "CFF " not in otf.tags:
+                    raise KeyError("CFF ")
+                return None
+            return real_compress(otf)
+
+        def convert(otf):
+            NATIVE_LIBS.calls.append(LibCall("convertCFFToCFF2", id(otf), None, None))
+            if isinstance(otf, _FakeOTF):
+                otf.tags.remove("CFF ")
+                otf.tags.add("CFF2")
+                return None
+            return real_convert(otf)
+
+        cffsubr.subroutinize, compreffor.compress, _PPM.convertCFFToCFF2 = subroutinize, compress, convert
+        return self
+
+    def __exit__(self, *exc):
+        import cffsubr
+        import compreffor
+
+        cffsubr.subroutinize, compreffor.compress, _PPM.convertCFFToCFF2 = self.saved
+        return False
 
 
-@trusted("compreffor.compress", "compreffor.compress(otf) subroutinises the CFF table of otf in place (recorded: otf.compress_calls += 1); "
-         "ASSUMED to preserve the drawing operations and widths of every charstring")
-def _compress(ex, st, args, kwargs, node):
-    (otf,) = args
-    if kwargs:
-        raise Unsupported("compreffor.compress with options", node)
-    n = ex.read_field(st, otf, "compress_calls")
-    ex.write_field(st, otf, "compress_calls", Val(INT, n.term + 1), node)
-    return Val.const(None)
+def _with_libs(invoke):
+    def call(fn, a):
+        with patched_libs():
+            return invoke(fn, a)
+
+    return call
 
 
-def _pp_class():
-    import importlib
-
-    return importlib.import_module("ufo2ft.postProcessor").PostProcessor
+_TAGSETS = (["CFF "], ["CFF2"], ["CFF ", "CFF2"], [], ["post", "CFF "], ["post"])
 
 
+def _version_arg(d):
+    return _VERSIONS(d["out"]) if d.get("enum", True) else d["out"]
+
+
+# ---- _subroutinize_with_compreffor ------------------------------------------------------------------------------------------
 contract(
     f"{PP}._subroutinize_with_compreffor",
     props=["C12"],
-    params={"cls": Const(_pp_class()), "otf": Ref("PPFont"), "cffVersion": INT},
-    modifies=["PPFont.compress_calls"],
+    params={"cls": Const(_PPC), "otf": Ref("PPFont"), "cffVersion": CFFV},
+    modifies=_LIB_MOD,
     raises={
         # unsupported: compreffor with a CFF2 input or a CFF2 output
         "NotImplementedError": "'CFF ' not in otf or cffVersion != 1",
     },
     ensures={
-        "compressed-once": "otf.compress_calls == old(otf.compress_calls) + 1",
+        "compressed-once": one_call("otf", "compreffor.compress", None, None),
+        "tables-kept": "'CFF ' in otf and iff('CFF2' in otf, old('CFF2' in otf))",
     },
-    canaries={"never-compressed": "otf.compress_calls == old(otf.compress_calls)"},
+    canaries={"never-compressed": no_call("otf")},
 )
-
-
-def _compreffor_call(fn, a):
-    import compreffor
-
-    real = compreffor.compress
-
-    def rec(otf, *args, **kw):
-        otf.compress_calls += 1
-
-    compreffor.compress = rec
-    try:
-        return fn(a["otf"], a["cffVersion"])
-    finally:
-        compreffor.compress = real
-
-
-def _compreffor_build(d):
-    from ufo2ft.postProcessor import CFFVersion
-
-    otf = _FakeOTF(d["tags"])
-    otf.compress_calls = 0
-    return {"otf": otf, "cffVersion": CFFVersion(d["out"]) if d["enum"] else d["out"]}
-
-
 CONTRACTS[f"{PP}._subroutinize_with_compreffor"].runtime = Runtime(
-    lambda rng, n: [{"tags": t, "out": o, "enum": e} for t in (["CFF "], ["CFF2"], ["CFF ", "CFF2"], []) for o in (1, 2) for e in (False, True)],
-    _compreffor_build, call=_compreffor_call,
+    lambda rng, n: [{"tags": t, "out": o, "enum": e} for t in _TAGSETS for o in (1, 2) for e in (False, True)],
+    lambda d: {"otf": _FakeOTF(d["tags"]), "cffVersion": _version_arg(d)},
+    call=_with_libs(lambda fn, a: fn(a["otf"], a["cffVersion"])),
 )
+
+# ---- _subroutinize_with_cffsubr ---------------------------------------------------------------------------------------------
+_CFFSUBR_POST = {
+    "subroutinized-once": one_call("otf", "cffsubr.subroutinize", "cffVersion", False),
+    # the table that comes out has the requested format
+    "requested-flavour": "iff('CFF ' in otf, cffVersion == 1) and implies(cffVersion == 2, 'CFF2' in otf) "
+                         "and implies(cffVersion == 1 and not old('CFF ' in otf and 'CFF2' in otf), 'CFF2' not in otf)",
+}
+contract(
+    f"{PP}._subroutinize_with_cffsubr",
+    props=["C12"],
+    params={"cls": Const(_PPC), "otf": Ref("PPFont"), "cffVersion": CFFV},
+    returns=Ref("PPFont"),
+    # the only caller (process_cff, through _subroutinize) passes a CFFVersion member
+    requires=[_MEMBER.format(v="cffVersion")],
+    modifies=_LIB_MOD + _TABLES_MOD + c11._POST_FIELDS,
+    raises={"AssertionError": "'CFF ' not in otf and 'CFF2' not in otf"},
+    ensures={**_CFFSUBR_POST, "same-font": "result is otf"},
+    canaries={"never-called": no_call("otf"), "always-cff1": "'CFF ' in otf"},
+)
+CONTRACTS[f"{PP}._subroutinize_with_cffsubr"].runtime = Runtime(
+    lambda rng, n: [{"tags": t, "out": o} for t in _TAGSETS for o in (1, 2)],
+    lambda d: {"otf": _FakeOTF(d["tags"]), "cffVersion": _version_arg(d)},
+    call=_with_libs(lambda fn, a: fn(a["otf"], a["cffVersion"])),
+)
+
+# ---- _subroutinize: getattr(cls, f"_subroutinize_with_{backend.value}")(otf, cffVersion) --------------------------------------
+# One variant per member of the REAL enum (the member is a python-level constant: `backend.value` and the attribute name
+# are then concrete, and the call resolves to the contract of the selected classmethod).  A member without a
+# `_subroutinize_with_<value>` method, or without a specification here, leaves its variant out of reach (exit 2).
+_BACKEND_SPEC = {
+    "cffsubr": dict(
+        requires=[_MEMBER.format(v="cffVersion")],
+        modifies=_LIB_MOD + _TABLES_MOD + c11._POST_FIELDS,
+        raises={"AssertionError": "'CFF ' not in otf and 'CFF2' not in otf"},
+        ensures=dict(_CFFSUBR_POST),
+        canaries={"never-called": no_call("otf")},
+    ),
+    "compreffor": dict(
+        requires=[],
+        modifies=_LIB_MOD,
+        raises={"NotImplementedError": "'CFF ' not in otf or cffVersion != 1"},
+        ensures={"compressed-once": one_call("otf", "compreffor.compress", None, None), "tables-kept": "'CFF ' in otf and iff('CFF2' in otf, old('CFF2' in otf))"},
+        canaries={"never-called": no_call("otf")},
+    ),
+}
+for _m in _BACKENDS:
+    _spec = _BACKEND_SPEC.get(_m.value, dict(ensures={"unspecified-backend": "False"}))
+    contract(
+        f"{PP}._subroutinize", name=_m.value, props=["C12"],
+        params={"cls": Const(_PPC), "backend": Const(_m), "otf": Ref("PPFont"), "cffVersion": CFFV},
+        **_spec,
+    )
+    CONTRACTS[f"{PP}._subroutinize#{_m.value}"].runtime = Runtime(
+        lambda rng, n: [{"tags": t, "out": o} for t in _TAGSETS for o in (1, 2)],
+        lambda d, _m=_m: {"backend": _m, "otf": _FakeOTF(d["tags"]), "cffVersion": _version_arg(d)},
+        call=_with_libs(lambda fn, a: fn(a["backend"], a["otf"], a["cffVersion"])),
+    )
+
+# ---- process_cff --------------------------------------------------------------------------------------------------------------
+# `subroutinizer` is split into the four cases None / "cffsubr" / "compreffor" / any other string (lemma
+# C12.subroutinizer-cases: the four cases cover Optional[str]); in each, the backend member is a python-level constant.
+# IN / OUT: the CFF format found in the font / asked for, as the property names them.
+_IN = "(1 if old('CFF ' in self.otf) else 2)"
+_OUT = f"({_IN} if cffVersion is None else cffVersion)"
+_IN0 = "(1 if 'CFF ' in self.otf else 2)"  # the same two, for clauses that are evaluated in the pre-state (raises)
+_OUT0 = f"({_IN0} if cffVersion is None else cffVersion)"
+_NO_TABLE = "('CFF ' not in self.otf and 'CFF2' not in self.otf)"
+_BAD_VERSION = "(cffVersion is not None and cffVersion != 1 and cffVersion != 2)"
+_DOWNGRADE = f"(not OPT and {_IN0} == 2 and {_OUT0} == 1)"  # CFF2 -> CFF without subroutinising: unsupported
+_SELF_LOG = "{o}.libs.calls"
+
+
+def _cff_cases(opt):
+    """the decision table of process_cff as (ValueError-iff, NotImplementedError-iff, ensures) per subroutinizer case;
+    `opt` = clause text of "charstrings are to be subroutinised" """
+    sub_cffsubr = {
+        "subroutinize-with-cffsubr": f"implies({opt}, " + one_call("self.otf", "cffsubr.subroutinize", _OUT, False) + ")",
+    }
+    sub_compreffor = {
+        "subroutinize-with-compreffor": f"implies({opt}, " + one_call("self.otf", "compreffor.compress", None, None) + ")",
+    }
+    common = {
+        # no optimisation: nothing for equal formats, the fontTools converter for CFF -> CFF2
+        "no-optimize-same-version": f"implies(not {opt} and {_IN} == {_OUT}, " + no_call("self.otf") + ")",
+        "no-optimize-convert": f"implies(not {opt} and {_IN} == 1 and {_OUT} == 2, " + one_call("self.otf", "convertCFFToCFF2", None, None) + ")",
+        # the font ends up with the requested CFF format
+        "requested-flavour": f"iff('CFF ' in self.otf, {_OUT} == 1) and implies({_OUT} == 2, 'CFF2' in self.otf) "
+                             f"and implies({_OUT} == 1 and not old('CFF ' in self.otf and 'CFF2' in self.otf), 'CFF2' not in self.otf)",
+        "same-font-object": "self.otf_id == old(self.otf_id)",
+    }
+    down = _DOWNGRADE.replace("OPT", opt)
+    ve = f"{_NO_TABLE} or {_BAD_VERSION}"
+    return {
+        "default": (ve, f"not ({ve}) and {down}", {**sub_cffsubr, **common}),
+        "cffsubr": (ve, f"not ({ve}) and {down}", {**sub_cffsubr, **common}),
+        "compreffor": (ve, f"not ({ve}) and ({down} or ({opt} and ({_IN0} != 1 or {_OUT0} != 1)))", {**sub_compreffor, **common}),
+        "unknown": (f"{ve} or {opt}", f"not ({ve} or {opt}) and {down}", dict(common)),
+    }
+
+
+_SUB_PARAM = {"default": Const(None), "cffsubr": Const("cffsubr"), "compreffor": Const("compreffor"), "unknown": STR}
+_SUB_REQ = {"unknown": ["subroutinizer != 'cffsubr' and subroutinizer != 'compreffor'"]}
+_SUB_VALUES = {"default": [None], "cffsubr": ["cffsubr"], "compreffor": ["compreffor"], "unknown": ["tx", "", "CFFSUBR", "cffsubr "]}
+_PCFF_MOD = ["C12Libs.calls", "PPFont.pristine", "PPFont.CFF2_loaded"] + _TABLES_MOD + c11._POST_FIELDS
+
+lemma(
+    "C12.subroutinizer-cases", props=["C12"], vars={"s": Opt(STR)},
+    hyps=[], concl={"cover": "s is None or s == 'cffsubr' or s == 'compreffor' or (s != 'cffsubr' and s != 'compreffor')"},
+    canaries={"three-suffice": "s is None or s == 'cffsubr' or s == 'compreffor'"},
+)
+
+
+def _default_member():
+    vals = list(_PPC.DEFAULT_SUBROUTINIZER_FOR_CFF_VERSION.values())
+    return vals[0].value if all(v is vals[0] for v in vals) else None
+
+
+def _sub_calls(case):
+    """which `_subroutinize` variant a process_cff variant reaches"""
+    # (`unknown`: SubroutinizerBackend(subroutinizer) raises; the call below it is on an infeasible path and only needs to resolve)
+    member = {"default": _default_member(), "cffsubr": "cffsubr", "compreffor": "compreffor", "unknown": list(_BACKENDS)[0].value}[case]
+    return {f"{PP}._subroutinize": f"{PP}._subroutinize#{member}"} if member else {}
+
+
+def _pcff_gen(case):
+    def gen(rng, n):
+        return [{"tags": t, "opt": o, "ver": v, "sub": s} for t in _TAGSETS for o in (False, True) for v in (None, 1, 2, 0, 3) for s in _SUB_VALUES[case]]
+
+    return gen
+
+
+def _fake_pp(d):
+    pp = _PPC.__new__(_PPC)
+    pp.otf, pp.ufo, pp.glyphSet, pp.info, pp._postscriptNames = _FakeOTF(d["tags"]), None, None, None, None
+    return pp
+
+
+# the table as the property words it (default backend = cffsubr for both versions); a different default table in the
+# code makes the `default` variant fail or fall out of reach
+_TABLE = _cff_cases("optimizeCFF")
+for _case, (_ve, _nie, _post) in _TABLE.items():
+    contract(
+        f"{PP}.process_cff", name=_case, props=["C12"],
+        params={"self": Ref("PostProcessor"), "optimizeCFF": BOOL, "cffVersion": Opt(INT), "subroutinizer": _SUB_PARAM[_case]},
+        requires=_SUB_REQ.get(_case, []),
+        calls=_sub_calls(_case),
+        modifies=_PCFF_MOD,
+        raises={"ValueError": _ve, "NotImplementedError": _nie},
+        ensures=_post,
+        canaries={"never-a-library-call": no_call("self.otf"), "always-cff1": "'CFF ' in self.otf"},
+    )
+    CONTRACTS[f"{PP}.process_cff#{_case}"].runtime = Runtime(
+        _pcff_gen(_case),
+        lambda d: {"self": _fake_pp(d), "optimizeCFF": d["opt"], "cffVersion": d["ver"], "subroutinizer": d["sub"]},
+        call=_with_libs(lambda fn, a: fn(a["self"], optimizeCFF=a["optimizeCFF"], cffVersion=a["cffVersion"], subroutinizer=a["subroutinizer"])),
+    )
+
+# ---- process ------------------------------------------------------------------------------------------------------------------
+# optimizeCFF is a bool or an optimisation level (CFFOptimization / int): one variant per kind.  "If True or >=
+# CFFOptimization.SUBROUTINIZE, subroutinize": the level only matters through `level >= 2`.  A font without CFF/CFF2 table
+# is left alone by this step.  The glyph-name step that follows (process_glyph_names, C11) calls none of the libraries
+# (its frame does not contain the log) and keeps the table set, so the table of process_cff is the table of process.
+CLASSES["PostProcessor"].fields.setdefault("info", Opt(Dict(STR, STR)))
+_PGN_REQ = CONTRACTS[f"{PP}.process_glyph_names"].requires
+_PROCESS_MOD = sorted(set(_PCFF_MOD) | set(CONTRACTS[f"{PP}.process_glyph_names"].modifies))
+_OPT_KINDS = {"bool": (BOOL, "optimizeCFF", [False, True]), "level": (INT, "optimizeCFF >= 2", [-1, 0, 1, 2, 3, 7])}
+_HAS_TABLE0 = f"not {_NO_TABLE}"
+
+
+def _process_gen(kind, case):
+    def gen(rng, n):
+        return [{"tags": t, "opt": o, "ver": v, "sub": s, "upn": u} for t in _TAGSETS for o in _OPT_KINDS[kind][2] for v in (None, 1, 2, 0, 3)
+                for s in _SUB_VALUES[case] for u in (False,)]
+
+    return gen
+
+
+for _kind, (_oty, _opt, _) in _OPT_KINDS.items():
+    for _case, (_ve, _nie, _post) in _cff_cases(_opt).items():
+        _old_has = "old(" + _HAS_TABLE0 + ")"
+        _ens = {k: f"implies({_old_has}, {v})" for k, v in _post.items() if k != "same-font-object"}
+        _ens["no-cff-table-nothing-to-do"] = f"implies(not {_old_has}, " + no_call("self") + ")"
+        _ens["returns-the-font"] = "result.font_id == self.otf_id"
+        contract(
+            f"{PP}.process", name=f"{_kind}/{_case}", props=["C12"],
+            params={"self": Ref("PostProcessor"), "useProductionNames": Opt(BOOL), "optimizeCFF": _oty, "cffVersion": Opt(INT), "subroutinizer": _SUB_PARAM[_case]},
+            returns=Ref("PPFont"),
+            requires=_SUB_REQ.get(_case, []) + [
+                # compileOTF / compileTTF reach process through BaseCompiler.compile -> postprocess(font, ufo, glyphSet): info=None
+                # (only variable-font builds pass fontinfo overrides; apply_fontinfo is C16's InfoCompiler)
+                "self.info is None",
+            ] + _PGN_REQ,
+            calls={f"{PP}.process_cff": f"{PP}.process_cff#{_case}"},
+            modifies=_PROCESS_MOD,
+            raises={"ValueError": f"{_HAS_TABLE0} and ({_ve})", "NotImplementedError": f"{_HAS_TABLE0} and ({_nie})"},
+            ensures=_ens,
+            canaries={"never-a-library-call": no_call("self"), "always-cff1": "'CFF ' in self.otf"},
+        )
